@@ -355,13 +355,28 @@ job_strm(const char *data, size_t dz, const char *sched)
 	printf("end\n");
 }
 
+#include <sys/personality.h>
+/* (see simcommon.h: address space randomisation is switched off) */
+static void
+no_aslr(char **argv)
+{
+	const int p = personality(0xffffffffUL);
+
+	if (p >= 0 && !(p & ADDR_NO_RANDOMIZE) && getenv("SIM_NOASLR_TRIED") == NULL) {
+		setenv("SIM_NOASLR_TRIED", "1", 1);
+		if (personality((unsigned long)p | ADDR_NO_RANDOMIZE) >= 0) {
+			execv("/proc/self/exe", argv);
+		}
+	}
+}
+
 #include "simp_rt.h"
 
 const char *__asan_default_options(void);
 __attribute__((used)) const char*
 __asan_default_options(void)
 {
-	return "exitcode=77:detect_leaks=0:abort_on_error=0:handle_abort=0:"
+	return "exitcode=77:detect_leaks=0:abort_on_error=0:handle_abort=0:detect_stack_use_after_return=0:"
 		"allocator_may_return_null=1:symbolize=0";
 }
 
@@ -422,7 +437,7 @@ do_job(char *line)
 #include <sys/mman.h>
 
 int
-main(void)
+main(int argc, char *argv[])
 {
 	char **lines = NULL;
 	size_t nlines = 0U, zlines = 0U;
@@ -432,6 +447,8 @@ main(void)
 	volatile long *cur;
 	size_t i = 0U;
 
+	(void)argc;
+	no_aslr(argv);
 	while ((n = getline(&line, &lz, stdin)) > 0) {
 		if (line[n - 1] == '\n') {
 			line[--n] = '\0';
